@@ -26,16 +26,16 @@ import (
 type StoreCase struct {
 	Compressed bool        `json:"compressed"`
 	Chunks     []ChunkSpec `json:"chunks"`
-	Writers    [][]int     `json:"writers"`           // Writers[j] = chunk indices writer j stores, in order; 1 writer = pinned to the main thread
-	Pre        []int       `json:"pre,omitempty"`     // chunks already in the store (valid) before the child starts
-	PreDir     []int       `json:"predir,omitempty"`  // chunks whose <4 hex> directory exists beforehand
-	Mode       string      `json:"mode"`              // none | kill | fsize | fsize-kill
-	Sys        string      `json:"sys,omitempty"`     // kill: system call ...
-	Count      int         `json:"count,omitempty"`   // ... and its per-thread ordinal counted from the start marker (1-based)
-	Fsize      int64       `json:"fsize,omitempty"`   // RLIMIT_FSIZE b
+	Writers    [][]int     `json:"writers"`             // Writers[j] = chunk indices writer j stores, in order; 1 writer = pinned to the main thread
+	Pre        []int       `json:"pre,omitempty"`       // chunks already in the store (valid) before the child starts
+	PreDir     []int       `json:"predir,omitempty"`    // chunks whose <4 hex> directory exists beforehand
+	Mode       string      `json:"mode"`                // none | kill | fsize | fsize-kill
+	Sys        string      `json:"sys,omitempty"`       // kill: system call ...
+	Count      int         `json:"count,omitempty"`     // ... and its per-thread ordinal counted from the start marker (1-based)
+	Fsize      int64       `json:"fsize,omitempty"`     // RLIMIT_FSIZE b
 	FsizeRel   bool        `json:"fsize_rel,omitempty"` // b is taken modulo the stored length of the first chunk written (generated cases)
-	Keep       string      `json:"keep,omitempty"`    // keep-set of the Prune that follows: all | none | alt
-	Bad        string      `json:"bad,omitempty"`     // self-test only: the child uses a deliberately broken store routine (direct | stray)
+	Keep       string      `json:"keep,omitempty"`      // keep-set of the Prune that follows: all | none | alt
+	Bad        string      `json:"bad,omitempty"`       // self-test only: the child uses a deliberately broken store routine (direct | stray)
 }
 
 type Case struct {
